@@ -68,4 +68,30 @@ mut("C05 dimension literal in build_sampler", [(LIB, "TropicalSubgraphTable::gen
 mut("C05 N: strict comparison + map_err", [(PRE, "if generalized_dod <= 0.0 && !subgraph.is_empty()", "if generalized_dod < 0.0 && !subgraph.is_empty()"), (LIB, "generate_from_tropical(&tropical_graph, D)?;", "generate_from_tropical(&tropical_graph, D).map_err(|e| e)?;")], C05=None)
 mut("C05 N: exemptions reordered", [(PRE, "if generalized_dod <= 0.0 && !subgraph.is_empty() && subgraph != full_subgraph_id {", "if subgraph != full_subgraph_id && !subgraph.is_empty() && generalized_dod <= 0.0 {")], C05=None)
 
+# ---- C08 ----
+mut("C08 mirrored write deleted", [(SAM, "                    temp_l_matrix[(i, j)] += &add;\n                    temp_l_matrix[(j, i)] += &add;", "                    temp_l_matrix[(i, j)] += &add;")], C08="C08-a")
+mut("C08 squared signature off the diagonal", [(SAM, "signature_matrix[e][i] * signature_matrix[e][j])", "signature_matrix[e][i] * signature_matrix[e][i])")], C08="C08-a")
+mut("C08 decomposition of another matrix", [(SAM, "let decomposed_l_matrix = match l_matrix.decompose_for_tropical(settings) {", "let decomposed_l_matrix = match (&l_matrix + &l_matrix).decompose_for_tropical(settings) {")], C08="C08-b")
+mut("C08 N: swapped off-diagonal writes, commuted product", [(SAM, "                    temp_l_matrix[(i, j)] += &add;\n                    temp_l_matrix[(j, i)] += &add;", "                    temp_l_matrix[(j, i)] += &add;\n                    temp_l_matrix[(i, j)] += &add;"), (SAM, "let add = x_vec[e].from_isize(signature_matrix[e][i] * signature_matrix[e][j])\n                    * &x_vec[e];", "let add = x_vec[e].ref_mul(&x_vec[e].from_isize(signature_matrix[e][j] * signature_matrix[e][i]));")], C08=None)
+mut("C08 N: full square loop", [(SAM, "        for j in i..num_loops {", "        for j in 0..num_loops {"), (SAM, "                if i == j {\n                    temp_l_matrix[(i, j)] += &add;\n                } else {\n                    temp_l_matrix[(i, j)] += &add;\n                    temp_l_matrix[(j, i)] += &add;\n                }", "                temp_l_matrix[(i, j)] += &add;")], C08=None)
+# ---- C09 ----
+mut("C09 mass not squared", [(SAM, "(mass.ref_mul(mass) + shift.squared()) * x_e", "(mass.clone() + shift.squared()) * x_e")], C09="C09-b")
+mut("C09 factor 2 dropped", [(SAM, "res -= &(const_builder.from_isize(2)\n                * u_vectors[i].dot(&u_vectors[j])", "res -= &(const_builder.from_isize(1)\n                * u_vectors[i].dot(&u_vectors[j])")], C09="C09-b")
+mut("C09 cross term sign", [(SAM, "res -= &(const_builder.from_isize(2)", "res += &(const_builder.from_isize(2)")], C09="C09-b")
+mut("C09 diagonal inverse in cross term", [(SAM, "                * &inverse_l[(i, j)]);", "                * &inverse_l[(i, i)]);")], C09="C09-b")
+mut("C09 u vector uses the wrong signature column", [(SAM, "const_builder.from_isize(signature_marix[e][l]) * &x_vec[e]", "const_builder.from_isize(signature_marix[e][0]) * &x_vec[e]")], C09="C09-a")
+mut("C09 v uses q_transposed_inverse", [(SAM, "        &u_vectors,\n        &decomposed_l_matrix.inverse,\n        &edge_shifts,", "        &u_vectors,\n        &decomposed_l_matrix.q_transposed_inverse,\n        &edge_shifts,")], C09="C09-b")
+mut("C09 N: transposed symmetric read, ref_mul as *", [(SAM, "                * &inverse_l[(i, j)]);", "                * &inverse_l[(j, i)]);"), (SAM, "(mass.ref_mul(mass) + shift.squared()) * x_e", "(mass.clone() * mass + shift.squared()) * x_e")], C09=None)
+mut("C09 N: full double loop without the factor", [(SAM, "    for l in 0..num_loops {\n        res -= &(u_vectors[l].squared() * &inverse_l[(l, l)]);\n    }\n\n    for i in 0..num_loops {\n        for j in i + 1..num_loops {\n            res -= &(const_builder.from_isize(2)\n                * u_vectors[i].dot(&u_vectors[j])\n                * &inverse_l[(i, j)]);\n        }\n    }", "    for i in 0..num_loops {\n        for j in 0..num_loops {\n            res -= &(u_vectors[i].dot(&u_vectors[j]) * &inverse_l[(i, j)]);\n        }\n    }")], C09=None)
+# ---- C10 ----
+mut("C10 transposed Q^-T read", [(SAM, "prefactor.ref_mul(&q_t_inverse[(l, l_prime)])", "prefactor.ref_mul(&q_t_inverse[(l_prime, l)])")], C10="C10-a")
+mut("C10 shift sign", [(SAM, "                    let u_part: Vector<T, D> = u * &l_inverse[(l, l_prime)];\n                    &acc + &u_part", "                    let u_part: Vector<T, D> = u * &l_inverse[(l, l_prime)];\n                    &acc - &u_part")], C10="C10-b")
+mut("C10 momenta use q_transposed", [(SAM, "        &decomposed_l_matrix.q_transposed_inverse,\n        &q_vectors,", "        &decomposed_l_matrix.q_transposed,\n        &q_vectors,")], C10="C10-a")
+mut("C10 prefactor without the 2", [(SAM, "let prefactor = (v.ref_div(lambda) / lambda.from_isize(2)).sqrt();", "let prefactor = (v.ref_div(lambda)).sqrt();")], C10="C10-a")
+mut("C10 N: transposed symmetric L^-1 read", [(SAM, "let u_part: Vector<T, D> = u * &l_inverse[(l, l_prime)];\n\n                    &(&acc + &q_part) - &u_part", "let u_part: Vector<T, D> = u * &l_inverse[(l_prime, l)];\n\n                    &(&acc + &q_part) - &u_part")], C10=None)
+# ---- C11 ----
+mut("C11 literal 1.5 for D/2 in the jacobian", [(SAM, "        .powf(&const_builder.from_f64(tropical_subgraph_table.dimension as f64 / 2.0))\n        * (v_trop.ref_div(&v))", "        .powf(&const_builder.from_f64(1.5))\n        * (v_trop.ref_div(&v))")], C11="C11-a")
+mut("C11 dod exponent on the u ratio", [(SAM, "            .powf(&const_builder.from_f64(tropical_subgraph_table.tropical_graph.dod))\n        * const_builder.from_f64(tropical_subgraph_table.cached_factor);", "            .powf(&const_builder.from_f64(tropical_subgraph_table.tropical_graph.dod + 0.0 * tropical_subgraph_table.dimension as f64))\n        * const_builder.from_f64(tropical_subgraph_table.cached_factor);")], C11=None)
+mut("C11 jacobian without cached factor", [(SAM, "        * const_builder.from_f64(tropical_subgraph_table.cached_factor);", "        * const_builder.from_f64(1.0);")], C11="C11-a")
+
 MUTATIONS = M
